@@ -9,3 +9,9 @@ from torch._utils import ExceptionWrapper
 
 class StartupExceptionWrapper(ExceptionWrapper):
     pass
+
+
+class MapFnExceptionWrapper(ExceptionWrapper):
+    """An exception raised by the map function for one item: the item has been consumed from the source."""
+
+    pass
